@@ -16,7 +16,7 @@ def _newest(paths):
 def ensure():
     """(re)extract when any model .vo or the driver source is newer than the binary"""
     with C.Lock('extract'):
-        deps = [os.path.join(C.COQ, d, f) for d in ('Spec', 'Model') for f in os.listdir(os.path.join(C.COQ, d)) if f.endswith('.vo')]
+        deps = [os.path.join(C.COQ, d, f) for d in ('Spec', 'Model', 'Gen') for f in os.listdir(os.path.join(C.COQ, d)) if f.endswith('.vo')]
         deps += [os.path.join(C.COQ, 'Extract', 'Extract.v'), os.path.join(C.COQ, 'Extract', 'driver.ml')]
         if os.path.exists(DRIVER) and os.path.getmtime(DRIVER) >= _newest(deps):
             return
